@@ -3,6 +3,7 @@ package props
 import (
 	"fmt"
 	"strings"
+	"unicode"
 
 	"verif/vt"
 )
@@ -117,8 +118,15 @@ func matchCells(grid [][]vt.Cell, W int, cells []placed, startRow, startCol, end
 				if freeLeft {
 					// left of a continuation line: blank, or the library's decoration (secondary
 					// prompt, multi-line column); anything else is a remnant of earlier content
-					if g := cellAt(grid, r, c); !blankCell(g) && !isSpaceCell(g) && string(g.R) != "\u2514" && string(g.R) != "\u2502" {
-						return false, fmt.Sprintf("cell (%d,%d), left of a continuation line, holds %q: neither blank nor a decoration glyph", r, c, string(g.R))
+					// (which glyphs the library decorates with is its choice: symbols and punctuation
+					// are accepted, letters, digits and wide characters - what buffers are made of
+					// in this workload - are remnants)
+					if g := cellAt(grid, r, c); !blankCell(g) && !isSpaceCell(g) {
+						for _, x := range g.R {
+							if unicode.IsLetter(x) || unicode.IsDigit(x) || vt.RuneWidth(x) == 2 {
+								return false, fmt.Sprintf("cell (%d,%d), left of a continuation line, holds %q: buffer text left from an earlier frame", r, c, string(g.R))
+							}
+						}
 					}
 					continue
 				}
